@@ -55,10 +55,12 @@ static std::vector<P3> lattice (int k)
 struct ProTally
 {
     long long calls = 0, transitions = 0, rank[4] = {0, 0, 0, 0}, scaled = 0, weighted = 0, unrelated = 0, symmetric = 0;
+    long long mirror = 0, outlier = 0, zerow = 0;
     double    w_known = 0, w_res = 0, w_opt = 0;
     void merge (const ProTally& o)
     {
         calls += o.calls; transitions += o.transitions; scaled += o.scaled; weighted += o.weighted; unrelated += o.unrelated; symmetric += o.symmetric;
+        mirror += o.mirror; outlier += o.outlier; zerow += o.zerow;
         for (int i = 0; i < 4; ++i) rank[i] += o.rank[i];
         w_known = std::max (w_known, o.w_known); w_res = std::max (w_res, o.w_res); w_opt = std::max (w_opt, o.w_opt);
     }
@@ -172,6 +174,160 @@ template <class T> struct Pro
                     R ().fail (std::string ("procrustes.zero-residual.rank") + std::to_string (d.rank) + (mode ? ".weighted" : "") + (ds ? ".doScaling" : ""), in (), "every A_i*M = B_i within " + ref::fmtE (tolr * (1 + 3 * d.maxA)), ref::fmtE (worst) + " off; got " + ref::fmtLib<4> (g));
                 t.transitions += 3;
             }
+    }
+
+    // ---- explicit weights (long double values exactly representable in T), any of them may be zero
+    static M44d callW (const PSet& A, const std::vector<std::array<LD, 3>>& B, const LD* wl, bool doScale)
+    {
+        const size_t n = A.size ();
+        Vec3<T> a[8], b[8];
+        T       w[8];
+        for (size_t i = 0; i < n; ++i)
+        {
+            a[i] = Vec3<T> ((T) A[i][0], (T) A[i][1], (T) A[i][2]);
+            b[i] = Vec3<T> ((T) B[i][0], (T) B[i][1], (T) B[i][2]);
+            w[i] = (T) wl[i];
+        }
+        return procrustesRotationAndTranslation (a, b, w, n, doScale);
+    }
+    // The "otherwise" clause of the statement for an arbitrary pair of sets and weights w (weight sum > 0): the result is
+    // s*rotation with the affine frame, maps the weighted centroid onto the weighted centroid and no rotation by +-2^-10 rad
+    // about x, y or z lowers the weighted residual (same a-priori bounds as in unrelated() below; sites carry `sfx`).
+    template <class InF> static void judgeLocal (const PSet& A, const std::vector<std::array<LD, 3>>& B, const LD* w, const M44d& g, bool ds, const std::string& sfx, InF&& in, ProTally& t)
+    {
+        const size_t n = A.size ();
+        LD maxA = 0, maxB = 0;
+        for (size_t i = 0; i < n; ++i) for (int c = 0; c < 3; ++c) { maxA = std::max (maxA, fabsl ((LD) A[i][c])); maxB = std::max (maxB, fabsl (B[i][c])); }
+        M4 gl = ref::fromLib<4> (g);
+        M3 L;
+        for (int r = 0; r < 3; ++r) for (int c = 0; c < 3; ++c) L[r][c] = gl[r][c];
+        M3 LLt = ref::mul (L, ref::transpose (L));
+        LD s2 = (LLt[0][0] + LLt[1][1] + LLt[2][2]) / 3, s = sqrtl (std::max (s2, (LD) 0));
+        M3 sI;
+        for (int i = 0; i < 3; ++i) sI[i][i] = s2;
+        LD oe = ref::maxdiff (LLt, sI), dt = ref::det (L);
+        if (!(oe <= 512 * EPSD * s2) || !(dt >= -512 * EPSD * s2 * s)) R ().fail ("procrustes.linear-part-is-scaled-rotation" + sfx, in (), "L L^T = s^2 I within 512 eps, det >= 0", ref::fmtLib<4> (g));
+        if (!ds && !(fabsl (s2 - 1) <= 512 * EPSD)) R ().fail ("procrustes.no-scale-without-doScaling" + sfx, in (), "s = 1", ref::fmtE (s));
+        if (!(g[0][3] == 0 && g[1][3] == 0 && g[2][3] == 0 && g[3][3] == 1)) R ().fail ("procrustes.affine-frame" + sfx, in (), "last column (0,0,0,1)", ref::fmtLib<4> (g));
+        LD ws = 0, ac[3] = {0, 0, 0}, bc[3] = {0, 0, 0};
+        for (size_t i = 0; i < n; ++i) { ws += w[i]; for (int c = 0; c < 3; ++c) { ac[c] += w[i] * A[i][c]; bc[c] += w[i] * B[i][c]; } }
+        for (int c = 0; c < 3; ++c) { ac[c] /= ws; bc[c] /= ws; }
+        LD cn = 0;
+        for (int r = 0; r < 3; ++r) for (int c = 0; c < 3; ++c) { LD v = 0; for (size_t i = 0; i < n; ++i) v += w[i] * (B[i][r] - bc[r]) * (A[i][c] - ac[c]); cn += v * v; }
+        cn = sqrtl (cn);
+        LD ce = 0;
+        for (int c = 0; c < 3; ++c) { LD v = gl[3][c]; for (int k = 0; k < 3; ++k) v += ac[k] * gl[k][c]; ce = std::max (ce, fabsl (v - bc[c])); }
+        LD tolc = 64 * EPSD * (1 + maxA * (1 + s) + maxB);
+        if (!(ce <= tolc)) R ().fail ("procrustes.centroid-maps-to-centroid" + sfx, in (), "within " + ref::fmtE (tolc), ref::fmtE (ce) + " off; got " + ref::fmtLib<4> (g));
+        auto f = [&] (const M3& Lm) {
+            LD acc = 0;
+            for (size_t i = 0; i < n; ++i)
+                for (int c = 0; c < 3; ++c)
+                {
+                    LD v = gl[3][c] - B[i][c];
+                    for (int k = 0; k < 3; ++k) v += (LD) A[i][k] * Lm[k][c];
+                    acc += w[i] * v * v;
+                }
+            return acc;
+        };
+        const LD f0 = f (L), delta = ldexpl (1.0L, -10);
+        for (int ax = 0; ax < 3; ++ax)
+            for (int sg = -1; sg <= 1; sg += 2)
+            {
+                LD f1 = f (ref::mul (L, ref::axisRot (ax, sg * delta)));
+                LD floor_ = f0 * (1 - ldexpl (1.0L, -30)) - 1024 * EPSD * std::max ((LD) 1, s) * cn * delta;
+                if (!(f1 >= floor_))
+                    R ().fail ("procrustes.locally-optimal" + sfx + (ds ? ".doScaling" : ""), in () + " perturbation: axis " + std::to_string (ax) + (sg > 0 ? " +" : " -") + "2^-10 rad",
+                               "weighted residual not lowered: f >= " + ref::fmtE (floor_), ref::fmtE (f1) + " < f0 = " + ref::fmtE (f0));
+            }
+        t.transitions += 10;
+    }
+
+    // ---- B is the mirror image of a spanning set A (B_i = A_i * diag(1,1,-1) + t): the orthogonal map that relates the
+    // sets is a reflection (unique, rank 3), so the best ROTATION has a positive residual and must be found by the
+    // forcePositiveDeterminant path of the SVD: the "otherwise" clause applies.
+    static void mirrored (const PSet& A, const P3& tr, ProTally& t)
+    {
+        const size_t n = A.size ();
+        std::vector<std::array<LD, 3>> B (n);
+        for (size_t i = 0; i < n; ++i) { B[i][0] = A[i][0] + tr[0]; B[i][1] = A[i][1] + tr[1]; B[i][2] = -(LD) A[i][2] + tr[2]; }
+        const LD ones[8] = {1, 1, 1, 1, 1, 1, 1, 1};
+        for (int mode = 0; mode < 3; ++mode)
+            for (int ds = 0; ds < 2; ++ds)
+            {
+                M44d g = call (A, B, mode, ds != 0);
+                ++t.calls; ++t.mirror;
+                auto in = [&] () { return inStr (A, B, mode, ds != 0, "B = mirror image of A (z -> -z) + t"); };
+                judgeLocal (A, B, mode == 2 ? GENW : ones, g, ds != 0, ".best-orthogonal-map-is-a-reflection", in, t);
+            }
+    }
+
+    // ---- a related pair plus one extra point of weight ZERO whose image is unrelated: the weighted residual of the known
+    // transform M* is exactly 0, so M* is the global minimiser; the orthogonal Procrustes objective has no other local
+    // minimum when the weighted scatter has rank >= 2 (the critical points of tr(Q C) on SO(3) are one maximum, one minimum
+    // and saddles), so "locally optimal" and "equals M*" coincide. Both are judged: judgeLocal literally, M* with the
+    // bound of related() (kappa of the weighted scatter, which ignores the zero-weight point).
+    static void outlier (const PSet& A0, const std::vector<int>& rc, const P3& tr, int scaleIdx, int rotIndex, ProTally& t)
+    {
+        static const LD SC[3] = {1, 2, 0.5L};
+        const LD s = SC[scaleIdx];
+        PSet A = A0;
+        A.push_back ({{5, -4, 3}});
+        const size_t n = A.size ();
+        LD w[8];
+        for (size_t i = 0; i + 1 < n; ++i) w[i] = GENW[i];
+        w[n - 1] = 0;
+        std::vector<std::array<LD, 3>> B (n);
+        LD maxB = 0;
+        for (size_t i = 0; i < n; ++i)
+            for (int c = 0; c < 3; ++c)
+            {
+                LD v = 0;
+                for (int k = 0; k < 3; ++k) v += (LD) A[i][k] * rc[k * 3 + c];
+                B[i][c] = s * v + tr[c];
+                if (i + 1 == n) B[i][c] = (c == 0 ? -6 : c == 1 ? 2 : 7); // where the outlier "went": unrelated to M*
+                maxB = std::max (maxB, fabsl (B[i][c]));
+            }
+        SetData d = analyse (A0, GENW); // rank and conditioning of the points that carry weight
+        if (d.rank < 2) return;
+        d.maxA = std::max (d.maxA, (LD) 5);
+        M4 want;
+        for (int r = 0; r < 3; ++r) { for (int c = 0; c < 3; ++c) want[r][c] = s * rc[r * 3 + c]; want[3][r] = tr[r]; }
+        for (int ds = (scaleIdx == 0 ? 0 : 1); ds < 2; ++ds)
+        {
+            M44d g = callW (A, B, w, ds != 0);
+            ++t.calls; ++t.outlier;
+            auto in = [&] () { return inStr (A, B, 2, ds != 0, "last point has weight 0; cubeRotation=" + std::to_string (rotIndex) + " scale=" + ref::fmtE (s) + " t=(" + std::to_string (tr[0]) + "," + std::to_string (tr[1]) + "," + std::to_string (tr[2]) + ")"); };
+            const LD tol = 512 * EPSD * (1 + s) * (1 + d.maxA + maxB) * d.kappa;
+            LD e = ref::maxdiff (ref::fromLib<4> (g), want);
+            if (!(e <= tol)) R ().fail (std::string ("procrustes.known-transform.zero-weight-outlier") + (ds ? ".doScaling" : ""), in (), "[[s*R,0],[t,1]] within " + ref::fmtE (tol), ref::fmtE (e) + " off; got " + ref::fmtLib<4> (g));
+            judgeLocal (A, B, w, g, ds != 0, ".zero-weight-outlier", in, t);
+            ++t.transitions;
+        }
+    }
+
+    // ---- every weight zero: the weighted residual is identically 0, every rigid transform is optimal; the result must
+    // still BE one (finite, s*rotation, affine frame)
+    static void zeroWeights (const PSet& A, ProTally& t)
+    {
+        const size_t n = A.size ();
+        std::vector<std::array<LD, 3>> B (n);
+        for (size_t i = 0; i < n; ++i) for (int c = 0; c < 3; ++c) B[i][c] = A[(i + 1) % n][(c + 1) % 3] + c;
+        const LD w[8] = {0, 0, 0, 0, 0, 0, 0, 0};
+        for (int ds = 0; ds < 2; ++ds)
+        {
+            M44d g = callW (A, B, w, ds != 0);
+            ++t.calls; ++t.zerow;
+            M3 L = ref::fromLib<3> (g);
+            M3 LLt = ref::mul (L, ref::transpose (L)), sI;
+            LD s2 = (LLt[0][0] + LLt[1][1] + LLt[2][2]) / 3;
+            for (int i = 0; i < 3; ++i) sI[i][i] = s2;
+            bool finite = true;
+            for (int r = 0; r < 4; ++r) for (int c = 0; c < 4; ++c) finite = finite && std::isfinite (g[r][c]);
+            if (!finite || !(ref::maxdiff (LLt, sI) <= 512 * EPSD * s2) || !(ref::det (L) >= 0) || !(g[0][3] == 0 && g[1][3] == 0 && g[2][3] == 0 && g[3][3] == 1) || (!ds && !(fabsl (s2 - 1) <= 512 * EPSD)))
+                R ().fail ("procrustes.all-weights-zero.not-a-rigid-transform", inStr (A, B, 2, ds != 0, "all weights 0"), "a finite (scaled) rotation + translation", ref::fmtLib<4> (g));
+            ++t.transitions;
+        }
     }
 
     static void unrelated (const PSet& A, const SetData sd[3], int shift, ProTally& t)
@@ -294,6 +450,24 @@ void stage_procrustes ()
                     Pro<float>::unrelated (A, sd, shift, l);
                     Pro<double>::unrelated (A, sd, shift, l);
                 }
+            // new families (near-origin sets only: the tolerances of judgeLocal are the near-origin ones)
+            if (si < nNear && sd[0].rank == 3)
+                for (size_t ti = 0; ti < 2; ++ti)
+                {
+                    Pro<float>::mirrored (A, trans[ti], l);
+                    Pro<double>::mirrored (A, trans[ti], l);
+                }
+            if (si < nUnrel && A.size () >= 3 && A.size () <= 5)
+            {
+                for (size_t ri = 0; ri < rots.size (); ++ri)
+                    for (int sc = 0; sc < 2; ++sc)
+                    {
+                        Pro<float>::outlier (A, rots[ri], trans[1], sc, (int) ri, l);
+                        Pro<double>::outlier (A, rots[ri], trans[1], sc, (int) ri, l);
+                    }
+                Pro<float>::zeroWeights (A, l);
+                Pro<double>::zeroWeights (A, l);
+            }
         }
         std::lock_guard<std::mutex> g (mu);
         G.merge (l);
@@ -309,12 +483,16 @@ void stage_procrustes ()
     R ().cls ("procrustes.generic-weights", G.weighted);
     R ().cls ("procrustes.repeated-singular-values(symmetric set)", G.symmetric);
     R ().cls ("procrustes.unrelated-sets", G.unrelated);
+    R ().cls ("procrustes.best-orthogonal-map-is-a-reflection(mirror image of a spanning set)", G.mirror);
+    R ().cls ("procrustes.related-sets-plus-zero-weight-outlier", G.outlier);
+    R ().cls ("procrustes.all-weights-zero", G.zerow);
     R ().cls ("procrustes.sets-far-from-origin(offset 2^20)", (long long) (sets.size () - nNear));
     R ().note_max ("worst procrustes |M - known transform| / bound", G.w_known);
     R ().note_max ("worst procrustes residual / bound", G.w_res);
     R ().note_max ("worst residual decrease under rotation perturbation / (2^-30 residual)", G.w_opt);
     std::string b = std::to_string (sets.size ()) + " lattice point sets of 1..6 points x 24 cube rotations x " + std::to_string (trans.size ()) +
-                    " translations x scale {1,2,1/2} x {unweighted, unit weights, prime weights} x {float,double}; " + std::to_string (G.unrelated) + " calls on unrelated pairs (3- and 4-point sets against shifted generic points) with the perturbation test";
+                    " translations x scale {1,2,1/2} x {unweighted, unit weights, prime weights} x {float,double}; " + std::to_string (G.unrelated) + " calls on unrelated pairs (3- and 4-point sets against shifted generic points) with the perturbation test; " +
+                    std::to_string (G.mirror) + " calls on mirror-image pairs, " + std::to_string (G.outlier) + " with a zero-weight outlier, " + std::to_string (G.zerow) + " with all weights zero";
     if (ok) R ().stage_done (b); else R ().stage_partial (b);
 }
 
